@@ -13,12 +13,32 @@ Reported obligation names carry the class of the failing instance as a suffix (@
 @anti-parallel-arcs, @parallel+anti-parallel-arcs): the unchanged tree has separate defects per class.
 Domain: integer capacities >= 0, integer costs, no negative-cost directed cycle among the arcs, demand >= 0 /
 integer supplies summing to 0, source != sink.
+
+Beyond the small scope (round 2):
+  * size ladder: networks with 12..120 nodes and 50..2100 arcs (arc counts around 128, 256, 512, 1024 and round numbers),
+    single source/sink (both solvers + agreement) and many-producer supply vectors (network_simplex).  No brute force: the
+    optimum comes from an independent successive-shortest-path solver whose answer is certified by potentials
+    (complementary slackness) or a violated cut, and the RETURNED flow is certified on its own: feasible + no negative-cost
+    cycle in its residual network <=> minimum cost.  solve_assignment up to 65 x 65 against a Hungarian method with dual
+    certificate.
+  * history mode: several calls in one process on the SAME objects - graph dict (min_cost_flow), arc list and supply list
+    (network_simplex), cost matrix (solve_assignment) - edited in place between the calls (capacity / cost replaced, arcs
+    added or deleted, two arcs' data swapped, keys re-inserted, other demand or terminals, same call repeated).  Every call
+    is judged against the input as it is at that call; the last call is repeated in a fresh interpreter on equal, newly built
+    objects and must return the identical Result (C09/<f>/frame:result-independent-of-call-history).
+  * magnitudes and ties: capacities / costs that are huge, equal everywhere, or differ by exactly 1 on top of 10^6..10^9
+    (all sums stay below 2^53, so float bookkeeping inside network_simplex is still exact), demands that are exact multiples
+    of the common capacity and one more / one less.
 """
 from __future__ import annotations
 
 import itertools
+import json
+import os
 import random
 import signal
+import subprocess
+import sys
 
 from vf.core import Ctx, use_repo
 from vf.pool import pmap
@@ -29,6 +49,9 @@ BUDGET1_ASSIGN = 0.25  # solve_assignment on up to 6x6
 BUDGET2 = 1.0  # CPU seconds when a sweep time-out of min_cost_flow / solve_assignment is re-run alone
 BUDGET2_NS = 40.0  # the same for network_simplex: enough for its own max_iter=10^6 pivots on <= 8 nodes (2-10 CPU-s), so a
 #                    pivot loop that is only stopped by max_iter comes back and is judged on its result, not as a hang
+BIG = 40  # networks with more arcs than this are "ladder" instances: certificate oracles, own CPU budgets
+BUDGET1_BIG = 60.0  # per call in the sweep (typical call 0.01-2 s)
+BUDGET2_BIG = 300.0  # re-run alone
 
 
 class _Timeout(Exception):
@@ -95,22 +118,35 @@ def judge(fname, st, res, n, arcs, supplies, oracle, back=None):
         except Exception:  # noqa
             return [(Pf + "feasible-flow", f"flow keys are not node pairs: {sol!r}")]
     bad = pooled_flow_defects(n, arcs, supplies, sol)
+    show = sol if len(sol) <= 30 else f"{dict(list(sol.items())[:30])}... ({len(sol)} arcs)"
+    cyc = None
     if bad:
-        out.append((Pf + "feasible-flow", "; ".join(bad[:3]) + f"  [returned flow {sol}]"))
+        out.append((Pf + "feasible-flow", "; ".join(bad[:3]) + f"  [returned flow {show}]"))
     else:
         costs = decomposition_costs(arcs, sol)
         if res.objective not in costs:
-            out.append((Pf + "cost-is-sum", f"objective {res.objective!r}, but the returned flow {sol} costs "
+            out.append((Pf + "cost-is-sum", f"objective {res.objective!r}, but the returned flow {show} costs "
                         f"{sorted(costs)[:4]}"))
-    if res.objective != oracle["cost"]:
+        if len(arcs) > BIG:  # certificate on the returned flow itself (cheapest split over parallel arcs)
+            from oracles.flow_exact import negative_residual_cycle, split_pooled
+            per_arc = split_pooled(arcs, sol)
+            cyc = negative_residual_cycle(n, arcs, per_arc)
+            mine = sum(f * a[3] for f, a in zip(per_arc, arcs))
+            if (cyc is None) != (mine == oracle["cost"]):
+                raise AssertionError(f"certificates disagree: residual cycle {cyc}, flow cost {mine}, reference optimum "
+                                     f"{oracle['cost']} on {(n, arcs, supplies)}")
+    if res.objective != oracle["cost"] or cyc is not None:
+        opt = oracle["flow"] if len(arcs) <= BIG else "omitted"
+        extra = "" if cyc is None else (f"; the returned flow is feasible but its residual network has the cycle "
+                                        f"{cyc[1][:12]} (u, v, +1 forward / -1 backward, cost) of total cost {cyc[0]}")
         out.append((Pf + "minimum-cost", f"objective {res.objective!r}, minimum cost {oracle['cost']} "
-                    f"(optimal flow per arc {oracle['flow']})"))
+                    f"(optimal flow per arc {opt}){extra}"))
     return out
 
 
 def oracle_for(n, arcs, supplies):
-    from oracles.flow_exact import certify_infeasible, certify_optimal, mcf_exact
-    o = mcf_exact(n, arcs, supplies)
+    from oracles.flow_exact import certify_infeasible, certify_optimal, mcf_exact, mcf_spfa
+    o = mcf_exact(n, arcs, supplies) if len(arcs) <= BIG else mcf_spfa(n, arcs, supplies)
     if o["status"] == "optimal":
         bad = certify_optimal(n, arcs, supplies, o["flow"], o["pi"])
     else:
@@ -129,7 +165,7 @@ def st_shape(supplies):
     return None
 
 
-def eval_flow_case(case, budget=BUDGET1, only=None, oracle=None, budget_ns=None):
+def eval_flow_case(case, budget=BUDGET1, only=None, oracle=None, budget_ns=None, objs=None):
     """case: kind 'flow', n, arcs [[u,v,cap,cost]], supplies, optional s,t (for demand 0), labels.  Runs network_simplex
     always and min_cost_flow when the instance is single-source single-sink.  Returns (violations, info)."""
     from solvor.flow import min_cost_flow
@@ -140,6 +176,8 @@ def eval_flow_case(case, budget=BUDGET1, only=None, oracle=None, budget_ns=None)
     supplies = list(case["supplies"])
     if oracle is None:
         oracle = oracle_for(n, arcs, supplies)
+    if len(arcs) > BIG:
+        budget = budget_ns = BUDGET1_BIG if budget == BUDGET1 else BUDGET2_BIG
     out = []
     info = {"oracle": oracle["status"], "timeouts": []}
     shape = st_shape(supplies)
@@ -149,9 +187,11 @@ def eval_flow_case(case, budget=BUDGET1, only=None, oracle=None, budget_ns=None)
     if shape is not None and only in (None, "min_cost_flow"):
         s, t, d = shape
         scheme = case.get("labels", "int")
-        g = build_graph(n, arcs, s, t, scheme)
+        g = objs["g"] if objs else build_graph(n, arcs, s, t, scheme)
         back = {_label(scheme, i): i for i in range(n)}
         st, res = guarded(budget, min_cost_flow, g, _label(scheme, s), _label(scheme, t), d)
+        if objs is not None:
+            objs["r_m"] = summary(st, res, back)
         v = judge("min_cost_flow", st, res, n, arcs, supplies, oracle, back)
         if st == "timeout":
             info["timeouts"].append("min_cost_flow")
@@ -159,7 +199,11 @@ def eval_flow_case(case, budget=BUDGET1, only=None, oracle=None, budget_ns=None)
             r_m = res
         out += v
     if only in (None, "network_simplex"):
-        st, res = guarded(budget_ns or budget, network_simplex, n, [tuple(a) for a in arcs], list(supplies))
+        if objs is not None:  # history mode: the caller's own list objects, not copies
+            st, res = guarded(budget_ns or budget, network_simplex, n, objs["A"], objs["B"])
+            objs["r_n"] = summary(st, res, None)
+        else:
+            st, res = guarded(budget_ns or budget, network_simplex, n, [tuple(a) for a in arcs], list(supplies))
         v = judge("network_simplex", st, res, n, arcs, supplies, oracle)
         if st == "timeout":
             info["timeouts"].append("network_simplex")
@@ -177,8 +221,8 @@ def eval_flow_case(case, budget=BUDGET1, only=None, oracle=None, budget_ns=None)
     return out, info
 
 
-def eval_assign_case(case, budget=BUDGET1_ASSIGN):
-    from oracles.flow_exact import assignment_brute
+def eval_assign_case(case, budget=BUDGET1_ASSIGN, same_object=None):
+    from oracles.flow_exact import assignment_brute, assignment_optimum
     from solvor.flow import solve_assignment
     from solvor.types import Status
 
@@ -186,9 +230,11 @@ def eval_assign_case(case, budget=BUDGET1_ASSIGN):
     Pf = "C09/solve_assignment/ensures:"
     n = len(mat)
     m = len(mat[0]) if n else 0
-    best = assignment_brute(mat)
+    best = assignment_brute(mat) if n * m <= 36 else assignment_optimum(mat)
     info = {"oracle": "optimal", "timeouts": [], "both": False}
-    st, res = guarded(budget, solve_assignment, [list(r) for r in mat])
+    if n * m > 36:
+        budget = BUDGET1_BIG if budget <= BUDGET1_ASSIGN else BUDGET2_BIG
+    st, res = guarded(budget, solve_assignment, same_object if same_object is not None else [list(r) for r in mat])
     if st == "timeout":
         info["timeouts"].append("solve_assignment")
         return [(Pf + "terminates", "did not come back within the CPU budget")], info
@@ -203,23 +249,161 @@ def eval_assign_case(case, budget=BUDGET1_ASSIGN):
         used = [j for j in a if j >= 0]
         ok = len(used) == min(n, m) and len(set(used)) == len(used)
     if not ok:
-        out.append((Pf + "valid-assignment", f"{a!r} is not an assignment of min(n,m)={min(n, m)} rows to distinct columns"))
+        out.append((Pf + "valid-assignment", f"{str(a)[:300]} is not an assignment of min(n,m)={min(n, m)} rows to distinct columns"))
     else:
         c = sum(mat[i][j] for i, j in enumerate(a) if j >= 0)
         if c != res.objective:
             out.append((Pf + "cost-is-sum", f"objective {res.objective!r}, assignment {a} costs {c}"))
     if res.objective != best:
-        out.append((Pf + "optimal", f"objective {res.objective!r}, optimum {best} (assignment {a})"))
+        out.append((Pf + "optimal", f"objective {res.objective!r}, optimum {best} (assignment {str(a)[:300]})"))
     return out, info
 
 
 def eval_case(case, budget=BUDGET1, only=None, budget_ns=None):
     if case["kind"] == "assign":
         return eval_assign_case(case, max(budget, BUDGET1_ASSIGN))
+    if case["kind"] == "history":
+        return eval_history(case, budget, budget_ns)[:2]
+    if case["kind"] == "assign-history":
+        return eval_assign_history(case, max(budget, BUDGET1_ASSIGN))
     return eval_flow_case(case, budget, only, budget_ns=budget_ns)
 
 
+# ------------------------------------------------------------------------------------------------ history mode
+def summary(st, res, back):
+    """JSON-able digest of one solver outcome (for the comparison with a fresh process)."""
+    if st != "ok":
+        return [st, str(res)]
+    sol = res.solution
+    if isinstance(sol, dict):
+        try:
+            sol = sorted([[back[k[0]], back[k[1]]] if back else list(k), f] for k, f in sol.items())
+        except Exception:  # noqa
+            sol = repr(sol)
+    return [res.status.name, repr(res.objective), sol]
+
+
+def _pos(A, k):
+    """Position of flat arc k inside its tail's adjacency list (lists are kept in flat order)."""
+    return sum(1 for a in A[:k] if a[0] == A[k][0])
+
+
+def apply_edit(A, g, scheme, ed):
+    """The same in-place edit on the arc list (network_simplex input) and on the graph dict (min_cost_flow input)."""
+    op = ed[0]
+    L = lambda i: _label(scheme, i)  # noqa
+    if op == "set":  # new capacity / cost on arc k
+        _, k, c, w = ed
+        u, v = A[k][0], A[k][1]
+        g[L(u)][_pos(A, k)] = (L(v), c, w)
+        A[k] = (u, v, c, w)
+    elif op == "add":
+        _, u, v, c, w = ed
+        A.append((u, v, c, w))
+        g.setdefault(L(u), []).append((L(v), c, w))
+    elif op == "del":
+        _, k = ed
+        del g[L(A[k][0])][_pos(A, k)]
+        del A[k]
+    elif op == "rekey":
+        _, u = ed
+        if L(u) in g:
+            g[L(u)] = g.pop(L(u))
+    else:
+        raise ValueError(op)
+
+
+def eval_history(case, budget=BUDGET1, budget_ns=None, want_last=False):
+    """case: kind 'history', n, arcs (initial), labels, steps [{"edits": [...], "supplies": [...], "s", "t"}...].
+    ONE arc list A, ONE supply list B and ONE graph dict g live through the whole sequence and are only edited in place."""
+    n = case["n"]
+    scheme = case.get("labels", "int")
+    steps = case["steps"]
+    A = [tuple(a) for a in case["arcs"]]
+    B = list(steps[0]["supplies"])
+    g = build_graph(n, A, steps[0]["s"], steps[0]["t"], scheme)
+    objs = {"A": A, "B": B, "g": g}
+    out = []
+    info = {"oracle": "optimal", "timeouts": [], "both": False, "calls": {"network_simplex": 0, "min_cost_flow": 0}}
+    last = None
+    for k, stp in enumerate(steps):
+        for ed in stp["edits"]:
+            apply_edit(A, g, scheme, ed)
+        B[:] = stp["supplies"]
+        sub = {"kind": "flow", "n": n, "arcs": [list(a) for a in A], "supplies": list(B), "s": stp["s"], "t": stp["t"],
+               "labels": scheme}
+        objs.pop("r_m", None)
+        objs.pop("r_n", None)
+        o, i = eval_flow_case(sub, budget, budget_ns=budget_ns, objs=objs)
+        info["calls"]["network_simplex"] += 1
+        info["calls"]["min_cost_flow"] += 1 if i["both"] else 0
+        info["both"] |= i["both"]
+        if i["oracle"] == "infeasible":
+            info["oracle"] = "mixed"
+        for f in i["timeouts"]:
+            if f not in info["timeouts"]:
+                info["timeouts"].append(f)
+        why = ("first call" if k == 0 else "after in-place edits " + json.dumps(stp["edits"]) if stp["edits"]
+               else "same objects, supplies/terminals " + ("unchanged" if stp["supplies"] == steps[k - 1]["supplies"] else "changed"))
+        out += [(ob, f"call #{k + 1} ({why}) on the same objects; arcs now {sub['arcs'] if len(A) <= 20 else len(A)}, "
+                     f"supplies {sub['supplies']}: {d}") for ob, d in o]
+        last = {"n": n, "arcs": sub["arcs"], "supplies": sub["supplies"], "s": stp["s"], "t": stp["t"], "labels": scheme,
+                "graph": [[u, [list(a) for a in g[u]]] for u in g], "both": i["both"],
+                "r_m": objs.get("r_m"), "r_n": objs.get("r_n")}
+    if want_last:
+        return out, info, last
+    return out, info
+
+
+def eval_assign_history(case, budget=BUDGET1_ASSIGN):
+    """case: kind 'assign-history', matrix, steps [[ [i, j, value], ... ], ...]: one matrix object, cells edited in place."""
+    mat = [list(r) for r in case["matrix"]]
+    out = []
+    info = {"oracle": "optimal", "timeouts": [], "both": False, "calls": {"solve_assignment": 0}}
+    for k, edits in enumerate(case["steps"]):
+        for i, j, val in edits:
+            mat[i][j] = val
+        o, i_ = eval_assign_case({"kind": "assign", "matrix": [list(r) for r in mat]}, budget, same_object=mat)
+        info["calls"]["solve_assignment"] += 1
+        info["timeouts"] += [f for f in i_["timeouts"] if f not in info["timeouts"]]
+        out += [(ob, f"call #{k + 1} (cells set in place: {edits}) on the same matrix object, now {mat}: {d}") for ob, d in o]
+    return out, info
+
+
+def fresh_eval(item):
+    """Run in a NEW interpreter on newly built equal objects."""
+    from solvor.flow import min_cost_flow
+    from solvor.network_simplex import network_simplex
+    scheme = item["labels"]
+    n = item["n"]
+    r = {}
+    st, res = guarded(BUDGET2_NS, network_simplex, n, [tuple(a) for a in item["arcs"]], list(item["supplies"]))
+    r["r_n"] = summary(st, res, None)
+    if item["both"]:
+        shape = st_shape(item["supplies"]) or (item["s"], item["t"], 0)
+        g = {u: [tuple(a) for a in lst] for u, lst in item["graph"]}
+        back = {_label(scheme, i): i for i in range(n)}
+        st, res = guarded(BUDGET2, min_cost_flow, g, _label(scheme, shape[0]), _label(scheme, shape[1]), shape[2])
+        r["r_m"] = summary(st, res, back)
+    return r
+
+
+def fresh_process(items):
+    if not items:
+        return []
+    here = os.path.dirname(os.path.dirname(os.path.abspath(__file__)))
+    p = subprocess.run([sys.executable, "-m", "checks.C09", "--fresh"], input=json.dumps(items), capture_output=True,
+                       text=True, cwd=here, env=dict(os.environ), timeout=900)
+    if p.returncode != 0:
+        raise RuntimeError("fresh-process helper failed: " + p.stderr[-800:])
+    return json.loads(p.stdout)
+
+
 def nontrivial(case):
+    if case["kind"] == "assign-history":
+        return nontrivial({"kind": "assign", "matrix": case["matrix"]})
+    if case["kind"] == "history":
+        return any(any(st["supplies"]) for st in case["steps"]) and sum(1 for a in case["arcs"] if a[2] > 0) >= 2
     if case["kind"] == "assign":
         mat = case["matrix"]
         flat = [x for r in mat for x in r]
@@ -228,6 +412,8 @@ def nontrivial(case):
 
 
 def case_key(case):
+    if case["kind"] in ("history", "assign-history"):
+        return hash(json.dumps(case, sort_keys=True))
     if case["kind"] == "assign":
         return hash(("a", tuple(map(tuple, case["matrix"]))))
     return hash((case["n"], tuple(map(tuple, case["arcs"])), tuple(case["supplies"]), case.get("s"), case.get("t"),
@@ -235,7 +421,7 @@ def case_key(case):
 
 
 def instance_shape(case):
-    if case["kind"] == "assign":
+    if case["kind"] in ("assign", "assign-history"):
         return "matrix"
     pairs = [(a[0], a[1]) for a in case["arcs"]]
     par = len(set(pairs)) < len(pairs)
@@ -247,7 +433,7 @@ def instance_shape(case):
 def qualified(ob, case):
     """Obligation name reported for a violation: the clause plus the class of the instance ('@simple-digraph',
     '@parallel-arcs', ...), so that defects with different causes get their own replay files and known-finding entries."""
-    if case["kind"] == "assign":
+    if case["kind"] in ("assign", "assign-history"):
         return ob
     return ob + "@" + instance_shape(case).replace(" ", "-")
 
@@ -272,9 +458,10 @@ class Tally:
             self.keys.append(case_key(case))
         shp = instance_shape(case)
         called = ["solve_assignment"] if case["kind"] == "assign" else ["network_simplex"] + (["min_cost_flow"] if info.get("both") else [])
-        for fn in called:
-            self.calls[fn] = self.calls.get(fn, 0) + 1
-            self.shape_calls[f"{fn} | {shp}"] = self.shape_calls.get(f"{fn} | {shp}", 0) + 1
+        ncalls = info.get("calls") or {fn: 1 for fn in called}
+        for fn, c in ncalls.items():
+            self.calls[fn] = self.calls.get(fn, 0) + c
+            self.shape_calls[f"{fn} | {shp}"] = self.shape_calls.get(f"{fn} | {shp}", 0) + c
         real = [(ob, d) for ob, d in out if not ob.endswith("terminates")]
         for f in info["timeouts"]:
             self.timeouts.append((case, f))
@@ -286,7 +473,11 @@ class Tally:
         for fn in info["timeouts"]:
             k = f"{fn} | {shp}"
             self.shape_to[k] = self.shape_to.get(k, 0) + 1
+        once = set()
         for ob, d in real:
+            if ob in once:
+                continue
+            once.add(ob)
             self.fails[ob] = self.fails.get(ob, 0) + 1
             self.kept[(ob, shp)] = self.kept.get((ob, shp), 0) + 1
             if self.kept[(ob, shp)] <= 2:
